@@ -1,5 +1,6 @@
 import Driver.Common
 import UralModel.Model.Canonicalize
+import UralModel.Model.PathHyp
 /-! Driver handlers for `canonicalize_url` and the URL-component helpers (C01, C02; reused by
 C03–C07). -/
 open Lean Ural Ural.Py Ural.UrlParts Ural.Canonicalize
@@ -35,6 +36,9 @@ def handle (f : String) (j : Json) : Option Json :=
   | "canon_parts" =>
     let r := canonParts (punyOf j) (fieldBool j "quoted") (fieldBool j "strip_fragment") (parsedOf (field j "parsed"))
     some (jlist [splitJson r, jstr (unchars (urlunsplit r))])
+  | "path_hyp" =>
+    let p := chars (fieldStr j "path")
+    some (jlist [jbool (Ural.Normpath.absPath p), jbool (Ural.Normpath.pathClean p)])
   | "normpath" => some (jstr (unchars (normpath (chars (fieldStr j "s")))))
   | "proto_len" => some (match protoLen (chars (fieldStr j "s")) with | some n => jnat n | none => .null)
   | _ => none
